@@ -64,11 +64,21 @@ pub fn gen(rng: &mut Rng, size: usize) -> Value {
         // a generated file
         let n = 1 + rng.below(8);
         let mut f = String::new();
-        if rng.chance(1, 8) {
+        if rng.chance(1, 25) {
             // the reference lies beyond the first 8 KiB / behind a very long line
-            let filler = if rng.chance(1, 2) { "x".repeat(8100 + rng.below(200) as usize) } else { "var a = 1; // filler\n".repeat(400 + rng.below(50) as usize) };
-            f.push_str(&filler);
-            f.push_str(*rng.pick(&["\n", "\r\n", ""]));
+            if rng.chance(1, 2) {
+                // the next line starts k bytes before a multiple of 8192 (k in 0..24): a marker straddling a buffer refill
+                let k = rng.below(25) as usize;
+                let mult = 1usize;
+                let mut filler = "var a = 1; // filler\n".repeat(8192 * mult / 21 - 2);
+                while filler.len() + 1 < 8192 * mult - k { filler.push('y'); }
+                filler.push('\n');
+                f.push_str(&filler);
+            } else {
+                let filler = if rng.chance(1, 2) { "x".repeat(8100 + rng.below(200) as usize) } else { "var a = 1; // filler\n".repeat(400 + rng.below(50) as usize) };
+                f.push_str(&filler);
+                f.push_str(*rng.pick(&["\n", "\r\n", ""]));
+            }
         }
         for k in 0..n {
             f.push_str(match rng.below(9) {
